@@ -323,6 +323,12 @@ impl SPDCConfig {
     let mut crystal_setup: CrystalSetup = self.crystal.into();
     let pump = self.pump.as_beam(&crystal_setup);
     let signal = self.signal.try_as_beam(&crystal_setup)?;
+    // the optimisers below unwrap the optimum idler, which does not exist in this case
+    if signal.vacuum_wavelength() <= pump.vacuum_wavelength() {
+      return Err(SPDCError(
+        "Signal wavelength must be greater than Pump wavelength".into(),
+      ));
+    }
     let periodic_poling =
       self
         .periodic_poling
